@@ -130,7 +130,7 @@ def classify(call_node):
 
 
 # ------------------------------------------------------------------ rust_base helpers
-@contract(B + "RustBaseAnalyzer.extract_node_text", props=["C17", "C12"], types=dict(node=TSNode), returns=Str)
+@contract(B + "RustBaseAnalyzer.extract_node_text", props=["C17", "C12", "C02"], types=dict(node=TSNode), returns=Str)
 class ExtractNodeText:
     def requires(node):
         return node is not None
